@@ -566,9 +566,21 @@ func c01Value(r *kit.Rand) string {
 }
 
 func c01Float(r *kit.Rand) float64 {
-	switch r.Intn(14) {
+	switch r.Intn(15) {
 	case 0:
 		return 0
+	case 14: // exact powers of two and their neighbours over the whole range
+		f := math.Ldexp(1, r.Range(-1074, 1023))
+		switch r.Intn(4) {
+		case 0:
+			f = math.Nextafter(f, 0)
+		case 1:
+			f = math.Nextafter(f, math.Inf(1))
+		}
+		if r.Bool() {
+			f = -f
+		}
+		return f
 	case 1:
 		return math.Copysign(0, -1)
 	case 2:
